@@ -187,6 +187,7 @@ class Typer:
                     lead = [(a, self.expr(a)) for a in args]
                     lead = [(a, t[0]) for a, t in lead if t is not None and len(t) >= 1 and t[0][0] == "L" and t[0][1] != "*"]
                     for (a1, x1), (a2, x2) in zip(lead, lead[1:]):
+                        self.n_typed += 1
                         if x1[1] != x2[1]:
                             self.problems.append(Mismatch(s.iter, f"zip pairs the axis {show((x1,))} of '{core.norm(core.src(a1), 30)}' with the axis {show((x2,))} of '{core.norm(core.src(a2), 30)}'"))
                     for e, a in zip(elts, args):
